@@ -148,6 +148,13 @@ func (st *State) pointwise(goal string, asserts []string) (string, []string) {
 		asserts = append(append([]string(nil), asserts...), conjuncts(prefix)...)
 	}
 	out := append([]string(nil), asserts...)
+	shifted := false
+	for _, a := range asserts {
+		if strings.Contains(a, "copied_arr") {
+			shifted = true
+			break
+		}
+	}
 	for _, a := range asserts {
 		for _, c := range conjuncts(a) {
 			guard, qq := "", c
@@ -166,6 +173,17 @@ func (st *State) pointwise(goal string, asserts []string) (string, []string) {
 				inst = imp(guard, inst)
 			}
 			out = append(out, inst)
+			if shifted && sort == "(_ BitVec 64)" {
+				// after a shifting copy (copy(s[i:], s[i+1:]) and the like) the element read at k is the
+				// old element at k+1 or k-1: the hypotheses are instantiated there as well
+				for _, w := range []string{app("bvadd", sk, bvInt(1, 64)), app("bvsub", sk, bvInt(1, 64))} {
+					i2 := substVar(hb, hv, w)
+					if guard != "" {
+						i2 = imp(guard, i2)
+					}
+					out = append(out, i2)
+				}
+			}
 		}
 	}
 	return newGoal, out
